@@ -701,4 +701,8 @@ def run(P, R, tier):
     c14.bounds(P, Remap(R, {'C14.BND.1': 'C16.BND.2'}))
     # which characters make a bare word is read from the class table with the byte itself as the index
     c14.ctype_subscripts(P, R, 'C16.BND.3')
+    # a host/service pair is handed over field by field: the source is cleared after, not before, the value is taken
+    c14.ownership(P, R, 'C16.OWN.1')
+    # the parser and the merge keep nothing from one load (or one entry, or one nested call) to the next
+    rules.no_static_locals(P, R, 'C16.WMC.9', P.unit_fns(P.need_fn('conf_read').unit), 'configuration code')
     return EXPLANATION, ASSUMPTIONS
